@@ -233,6 +233,23 @@ pub fn observe(m: &mut Mdl, c: &Call, r: &mut Rules, w: usize) {
             if pre.st == St::Disc && !resets.is_empty() {
                 r.viol("c15.arm-while-disconnected", &pre, format!("a local call arms a timer while disconnected: {}", c.describe()));
             }
+            // the interval in force is the one chosen by priority *now*: a change made by this call shows in the
+            // timer at once - not only after the next packet the client happens to send
+            if pre.st != St::Disc && pre.as_client {
+                let before = expected_pingreq_interval(&pre);
+                let after = expected_pingreq_interval(m);
+                let armed = m.armed[Tk::PingreqSend.idx()];
+                r.label("c15.setter-checked");
+                if after == 0 && armed {
+                    r.viol("c15.setter-leaves-timer-for-0", &pre, format!("the PINGREQ interval in force is 0 after this call (override {:?}, server keep alive {:?}, keep alive {}) but the timer armed earlier keeps running: {}", m.user_interval, m.link.ska, m.link.ka_connect, c.describe()));
+                }
+                if after > 0 && (after != before || !pre_armed[Tk::PingreqSend.idx()]) {
+                    let got: Vec<u64> = resets.iter().filter(|x| x.0 == Tk::PingreqSend).map(|x| x.1).collect();
+                    if got.last() != Some(&after) {
+                        r.viol("c15.setter-not-applied", &pre, format!("the PINGREQ interval in force changes from {before} to {after} ms (override {:?}, server keep alive {:?}, keep alive {}) but the timer is not armed with it (got {got:?}, armed before: {}): {}", m.user_interval, m.link.ska, m.link.ka_connect, pre_armed[Tk::PingreqSend.idx()], c.describe()));
+                    }
+                }
+            }
         }
         CallKind::Timer(k) => {
             if pre.st == St::Connected {
@@ -611,6 +628,8 @@ fn on_send(m: &mut Mdl, pre: &Mdl, ap: &AP, c: &Call, r: &mut Rules, exp_rel: &m
                 if *clean {
                     m.new_session();
                     r.label("session.clean-start");
+                } else {
+                    m.mark_old_session();
                 }
                 m.link = LinkFacts { own_rm: prop_u16(props, 0x21), own_tam: prop_u16(props, 0x22).unwrap_or(0), own_mps: prop_u32(props, 0x27), ka_connect: *keep_alive, ..LinkFacts::default() };
                 m.out_n = 0;
@@ -649,9 +668,16 @@ fn on_send(m: &mut Mdl, pre: &Mdl, ap: &AP, c: &Call, r: &mut Rules, exp_rel: &m
                             if !m.store.is_empty() || !m.ids.is_empty() {
                                 r.label("session.not-present-discards");
                             }
-                            m.new_session();
-                            if c.sends().len() > 1 {
-                                r.viol("c06.e-sent-on-new-session", pre, format!("session not present but packets are transmitted: {}", c.describe()));
+                            // the earlier session goes; what was accepted / notified since the CONNECT stays and,
+                            // if it is a packet, goes out now
+                            m.drop_old_session();
+                            if m.store.is_empty() {
+                                if c.sends().len() > 1 {
+                                    r.viol("c06.e-sent-on-new-session", pre, format!("session not present but packets are transmitted: {}", c.describe()));
+                                }
+                            } else {
+                                r.label("session.not-present-keeps-early-packets");
+                                resume_rule(m, pre, c, r, exp_rel, true, w);
                             }
                         } else {
                             // the new session's own packets, handed over since the CONNECT, go out now
@@ -671,6 +697,7 @@ fn on_send(m: &mut Mdl, pre: &Mdl, ap: &AP, c: &Call, r: &mut Rules, exp_rel: &m
                 let id = pid.unwrap();
                 if accepted {
                     m.ids.insert(id, if *qos == 1 { Owner::Pub1 } else { Owner::Pub2 });
+                    m.old_ids.remove(&id);
                     if sent && pre.st == St::Connected {
                         // C12: accepted only while fewer than M exchanges are incomplete
                         if let (Some(mx), Some(Ver::V5)) = (m.link.peer_rm, m.ver) {
@@ -800,6 +827,8 @@ fn on_recv(m: &mut Mdl, pre: &Mdl, ap: &AP, frame: &[u8], c: &Call, r: &mut Rule
                     if *clean {
                         m.new_session();
                         r.label("session.clean-start");
+                    } else {
+                        m.mark_old_session();
                     }
                     m.link = LinkFacts { peer_rm: prop_u16(props, 0x21), peer_tam: prop_u16(props, 0x22).unwrap_or(0), peer_mps: prop_u32(props, 0x27), ka_connect: *keep_alive, ..LinkFacts::default() };
                     m.out_n = 0;
@@ -858,10 +887,15 @@ fn on_recv(m: &mut Mdl, pre: &Mdl, ap: &AP, frame: &[u8], c: &Call, r: &mut Rule
                             resume_rule(m, pre, c, r, exp_rel, false, w);
                         }
                     } else if !m.clean_start {
-                        m.new_session();
+                        m.drop_old_session();
                         r.label("session.not-present");
-                        if !c.sends().is_empty() {
-                            r.viol("c06.e-sent-on-new-session", pre, format!("session not present but packets are transmitted: {}", c.describe()));
+                        if m.store.is_empty() {
+                            if !c.sends().is_empty() {
+                                r.viol("c06.e-sent-on-new-session", pre, format!("session not present but packets are transmitted: {}", c.describe()));
+                            }
+                        } else {
+                            r.label("session.not-present-keeps-early-packets");
+                            resume_rule(m, pre, c, r, exp_rel, false, w);
                         }
                     } else {
                         // after a clean start the new session began with the CONNECT: what the application has
@@ -955,6 +989,9 @@ fn on_recv(m: &mut Mdl, pre: &Mdl, ap: &AP, frame: &[u8], c: &Call, r: &mut Rule
                             r.viol("c07.duplicate-delivery", pre, format!("QoS 2 PUBLISH id {id} notified again before PUBREL: {}", c.describe()));
                         }
                         m.q2_notified.insert(id);
+                        if !was {
+                            m.old_q2.remove(&id);
+                        }
                         r.label("c07.first-delivery");
                     } else if errored {
                         // refused by validation: must not count as handled (checked against the real set below)
@@ -1152,8 +1189,12 @@ pub fn after_step<P: Pid>(m: &mut Mdl, pre_m: &Mdl, pre: &VerifState, post: &Ver
             }
             Note::Rel { id } => {
                 let stored = in_store(*id, 3);
-                if m.persistent && !stored && m.ids.get(id) == Some(&Owner::Rel) {
-                    r.viol("c06.b-pubrel-not-stored", pre_m, format!("session is persistent but the transmitted PUBREL id {id} is not in the store"));
+                // while a connection attempt that resumes a session is still pending (no CONNACK yet), the session
+                // is the persistent one it was before the CONNECT: a never-established attempt leaves it as it was,
+                // so whatever happens to its exchanges in that window must be kept like in any persistent session
+                let pending_persistent = m.st != St::Connected && !m.established && m.persistent_before && !m.clean_start;
+                if (m.persistent || pending_persistent) && !stored && m.ids.get(id) == Some(&Owner::Rel) {
+                    r.viol("c06.b-pubrel-not-stored", pre_m, format!("session is persistent{} but the PUBREL id {id} is not in the store", if m.persistent { "" } else { " (the pending attempt would end it, but has not been established)" }));
                 }
                 if stored && !m.store.iter().any(|e| e.id == *id && e.kind == 3) {
                     m.store.push(StoreEnt { id: *id, kind: 3, topic: vec![], payload: vec![], size: size_of(*id, 3) });
@@ -1162,7 +1203,7 @@ pub fn after_step<P: Pid>(m: &mut Mdl, pre_m: &Mdl, pre: &VerifState, post: &Ver
             }
             Note::Expiry0Resume => {
                 let model_has = !m.store.is_empty() || !m.ids.is_empty() || !m.q2_notified.is_empty();
-                let lib_wiped = post.store.is_empty() && post.qos2_publish_handled.is_empty() && post.pid_puback.is_empty() && post.pid_pubrec.is_empty() && post.pid_pubcomp.is_empty();
+                let lib_wiped = post.store.is_empty() && post.qos2_publish_handled.is_empty() && post.pid_puback.is_empty() && post.pid_pubrec.is_empty() && post.pid_pubcomp.is_empty() && crate::conn::in_use_ids(&post.pid_free, if w == 2 { 65535 } else { u32::MAX as u64 }).is_empty();
                 if model_has {
                     r.label("c06.expiry0-resume-with-state");
                 }
